@@ -72,7 +72,7 @@ CHECKS = {
           "by all ids ever allocated (IdAllocator::end / ThreadId::end) and keeps the minimum starting from UINT64_MAX; leaving "
           "release-stores UINT64_MAX only on the outermost exit with a balanced nesting counter; Accessor is move-only, swaps both "
           "fields and unregisters at most once. A weakened fence or order never shows in sequentially consistent test interleavings on "
-          "x86. The sufficiency of these orders (the Dekker argument) and the non-x86 branch of tick() are not decided. Also: the scan bound is the instance's own accessor count whenever non-zero; the process-wide thread count is used only on the ==0 edge (R3e). Also: lock/unlock work on the caller's own slot, which lock ensures first; create_accessor ensures the slot it hands out (R6).",
+          "x86. The sufficiency of these orders (the Dekker argument) and the non-x86 branch of tick() are not decided. Also: the scan bound is the instance's own accessor count whenever non-zero; the process-wide thread count is used only on the ==0 edge (R3e). Also: lock/unlock work on the caller's own slot, which lock ensures first; create_accessor ensures the slot it hands out (R6). Also: every write of the scan callback to the captured result folds (the callback runs once per block) (R3f).",
   "note": "Trusted: C++ memory model reasoning about seq_cst fences; host preprocessor branch (#if __x86_64__) only.",
   "technique": "static analysis: memory-order, fence post-dominance, edge-guard and provenance rules over CFG facts"},
  "C14": {
@@ -84,7 +84,7 @@ CHECKS = {
           "id.version -> different value), emplace stamps the slot with the allocated version before the id leaves; finish_released only "
           "from holders of a successful take, Accessor moves keep one finisher; a thread id is allocated in the constructor and the same "
           "value returned in the destructor. An ABA or stale-version match needs a precise three-thread interleaving and is silent. "
-          "Uniqueness over all interleavings is not decided. Also: IdAllocator::for_each closes a reported run, flushes the trailing run, finds run boundaries with ACTIVE_FLAG and advances pointer and id together (R6).",
+          "Uniqueness over all interleavings is not decided. Also: IdAllocator::for_each closes a reported run, flushes the trailing run, finds run boundaries with ACTIVE_FLAG and advances pointer and id together (R6). Also: value, bound and live-id enumeration of one thread-id flavour use the same allocator instance (R5c).",
   "note": "Trusted: clang 14 CFG; 64-bit lock-free atomics on VersionedValue (asserted by the platform, not by this check).",
   "technique": "static analysis: provenance (desired value derives from observed value + constant), edge-guard, dominance and memory-order rules over CFG facts"},
  "C13": {
@@ -128,7 +128,7 @@ CHECKS = {
           "the chain; user-provided move members transfer every member and data-carrying base (violated by the original tree: finding F3, "
           "replayed and fixed); constant indices agree with the capacity of the in-page arrays. A block returned with the wrong size, twice "
           "or never is visible only with an instrumented allocator over long histories. Block disjointness / alignment arithmetic / overlap "
-          "with in-page bookkeeping are numeric and explicitly not decided. Also: when a move member exchanges the block bookkeeping, the allocators release() hands blocks back to are exchanged with it (R4b). Also: release() does not read a bookkeeping array again after a block of its own group went back while the chain head still names it (R2h).",
+          "with in-page bookkeeping are numeric and explicitly not decided. Also: when a move member exchanges the block bookkeeping, the allocators release() hands blocks back to are exchanged with it (R4b). Also: release() does not read a bookkeeping array again after a block of its own group went back while the chain head still names it (R2h). Also: EnumerableThreadLocal<ExclusiveMonotonicBufferResource> moves its cache key with its storage (R4c).",
   "note": "Trusted: clang 14 CFG; PageAllocator and std::pmr upstream are opaque; SanitizerHelper calls are value-transparent helpers.",
   "technique": "static analysis: resource-flow (acquire -> register on all paths), expression agreement with reaching definitions, ordering/dominance, "
                "special-member completeness and constant/capacity agreement over CFG facts"},
@@ -184,7 +184,7 @@ CHECKS = {
           "for_each_alive (live-id enumeration); the comparer's reset only bumps the version, a stale-version write overwrites value and "
           "version, readers skip stale slots; the adder does a plain read-add-write on its own slot and reset zeroes all; move members "
           "transfer every field. Slot recycling across generations of threads / instances needs long create-destroy histories the tests do "
-          "not produce. Exactness of sums under concurrent readers is not decided. Also: reset() of the aggregates walks every slot ever used, like value() (R3a). Also: the summer's sample is (value,1) through the pair overload and the pair update is one 128-bit own-slot = own-slot + argument (R5c/R5d).",
+          "not produce. Exactness of sums under concurrent readers is not decided. Also: reset() of the aggregates walks every slot ever used, like value() (R3a). Also: the summer's sample is (value,1) through the pair overload and the pair update is one 128-bit own-slot = own-slot + argument (R5c/R5d). Also: value, bound and live-id enumeration of one thread-id flavour use the same allocator instance (R3c).",
   "note": "Trusted: clang 14 CFG; ConcurrentVector (C04) and IdAllocator (C14).",
   "technique": "static analysis: ordering/dominance, resolved-callee (who sums over what), edge-guard and special-member completeness rules over CFG facts"},
  "C20": {
